@@ -7,5 +7,6 @@ CONSTANTS
   MaxPeer = 3
   MaxOps = 3
   DeleteOnMatch = TRUE
-INVARIANTS MatchOnce OnePerTid
+  WaitDecodes = TRUE
+INVARIANTS MatchOnce OnePerTid EveryResponseJudged
 CHECK_DEADLOCK FALSE
